@@ -2,7 +2,7 @@
 // behind a line protocol.  Input: one hex-encoded UTF-8 string per line.
 // Output: one line per input; tokens separated by ';', each
 //   Kind,<text hex>,<value kind>,<value hex>,<start offset>,<end offset>
-// a tokenizer/validation error ends the line with  ERR,<message hex>
+// a tokenizer/validation error ends the line with  ERR,<message hex>,<start>,<end>
 #[path = "/repo/edb/edgeql-parser/src/keywords.rs"] pub mod keywords;
 #[path = "/repo/edb/edgeql-parser/src/position.rs"] pub mod position;
 #[path = "/repo/edb/edgeql-parser/src/tokenizer.rs"] pub mod tokenizer;
@@ -45,9 +45,10 @@ fn main() {
                     };
                     parts.push(format!("{:?},{},{},{},{},{}", t.kind, hex(t.text.as_bytes()), vk, vv, t.span.start, t.span.end));
                 }
-                Err(e) => { parts.push(format!("ERR,{}", hex(e.message.as_bytes()))); break; }
+                Err(e) => { parts.push(format!("ERR,{},{},{}", hex(e.message.as_bytes()), e.span.start, e.span.end)); break; }
             }
         }
         writeln!(out, "{}", parts.join(";")).unwrap();
+        out.flush().unwrap();
     }
 }
